@@ -30,6 +30,7 @@ var assumptions = []string{
 	"hooks do not write to the response themselves (re-entering the writer from a hook is a caller error)",
 	"status codes outside 100..999 are only used with an underlying writer that refuses them by panicking, as net/http's does (a writer that takes WriteHeader(0) cannot be told from one that was never called)",
 	"hooks do not panic (C15 has those)",
+	"the underlying writer keeps io.Writer's contract: a count short of the length comes with an error (what the wrapper does with a writer that reports a short count and no error is not generated)",
 }
 
 func TestMain(m *testing.M) { evid.Main(m, "C13", rule, assumptions) }
